@@ -37,15 +37,27 @@ Definition obs_ok (s : st) (o : obs) : bool :=
   list_eqb nat3_eqb (m_cache s) (o_cache o)
   && list_eqb nat2_eqb (m_pending s) (o_pending o)
   && Bool.eqb (closed s) (o_closed o)
-  && list_eqb Nat.eqb (map (released s) (seq 0 (nextf s))) (o_fclosed o)
+  && list_eqb Nat.eqb (map (fun f => if is_virtual s f then O else released s f) (seq 0 (nextf s))) (o_fclosed o)  (* no handle: reported as 0 *)
   && list_eqb Nat.eqb (map (bclosed s) (seq 0 (nextb s))) (o_bclosed o).
+
+(* Release of an fsFile without a handle closes nothing, so the harness cannot see it: after each block the
+   model performs the Release steps that are pending for such files. *)
+Fixpoint flush_virtual (cf : cfg) (s : st) (l : list fid) : st :=
+  match l with
+  | [] => s
+  | f :: r =>
+      if is_virtual s f then
+        match step cf s (Release f) with Some s' => flush_virtual cf s' r | None => flush_virtual cf s r end
+      else flush_virtual cf s r
+  end.
 
 Fixpoint replay (cf : cfg) (s : st) (bs : list block) : option st :=
   match bs with
   | [] => Some s
   | Blk ls o :: r =>
       match run cf s ls with
-      | Some s' => if obs_ok s' o then replay cf s' r else None
+      | Some s1 => let s' := flush_virtual cf s1 (relq s1) in
+                   if obs_ok s' o then replay cf s' r else None
       | None => None
       end
   end.
